@@ -80,7 +80,7 @@ func buildVC(w *World, c *Contract) (vc *FuncVC) {
 		args = append(args, v)
 		vc.Inputs = append(vc.Inputs, inputSym{p.Name(), p.Type(), v})
 	}
-	h0 := Heap{}
+	h0 := Heap{"#entry": "1"}
 	if c.Options["with-init"] {
 		// package-level tables: execute the package initialiser symbolically first, so that
 		// globals hold exactly what the real init puts there (calls to other packages'
@@ -98,7 +98,9 @@ func buildVC(w *World, c *Contract) (vc *FuncVC) {
 	// vacuity guard: the precondition is satisfiable
 	e.oblige(&Obligation{Name: c.Func + ".cover.requires", Kind: "cover", Clause: "requires satisfiable", Goal: "true", Cover: true, Func: c.Func, Pos: e.posOf(fn.Pos())})
 	e.rootArgs = args
-	res := e.execFunction(fn, args, nil, "true", h0.clone())
+	execHeap := h0.clone()
+	delete(execHeap, "#entry")
+	res := e.execFunction(fn, args, nil, "true", execHeap)
 	// vacuity guard: the function can return
 	if !c.Options["noreturn"] {
 		e.oblige(&Obligation{Name: c.Func + ".cover.returns", Kind: "cover", Clause: "some execution returns", Goal: res.reach, Cover: true, Func: c.Func, Pos: e.posOf(fn.Pos())})
@@ -142,6 +144,31 @@ func buildVC(w *World, c *Contract) (vc *FuncVC) {
 		if ap := w.Preds[c.Pkg+"."+cl.Pred+"_ant"]; ap != nil {
 			a := e.evalPred(ap, append(append([]Val{}, args...), resList...), res.heap, h0)
 			e.oblige(&Obligation{Name: c.Func + ".cover.ensures." + cl.Label, Kind: "cover", Clause: "antecedent of: " + cl.Expr, Goal: and(res.reach, a), Cover: true, Func: c.Func, Pos: e.posOf(fn.Pos())})
+		}
+	}
+	// a calls clause that matched no call is vacuous
+	for _, cl := range c.byKind("calls") {
+		if e.callsSeen[cl.Label] == 0 {
+			e.oblige(&Obligation{Name: c.Func + ".calls." + cl.Label + ".present", Kind: "ensures", Clause: "the function calls " + cl.Callee + " (clause would otherwise be vacuous)", Goal: "false", Func: c.Func, Pos: e.posOf(fn.Pos())})
+		}
+	}
+	// exit clauses: evaluated at every call of os.Exit / log.Fatal reachable in the function
+	for _, cl := range c.byKind("exits") {
+		pf := w.Preds[c.Pkg+"."+cl.Pred]
+		for i, xs := range e.exitSites {
+			e.curExitCode = xs.code
+			saveW := e.ghostWrites
+			e.ghostWrites = e.ghostWrites[:xs.nwrites]
+			t := e.evalPred(pf, args, xs.heap, h0)
+			e.ghostWrites = saveW
+			e.oblige(&Obligation{
+				Name:   fmt.Sprintf("%s.exits.%s.site%d", c.Func, cl.Label, i),
+				Kind:   "ensures",
+				Clause: cl.Expr + "   [at the process exit at " + xs.pos + "]",
+				Goal:   implies(xs.cond, t),
+				Pos:    xs.pos,
+				Func:   c.Func,
+			})
 		}
 	}
 	// relational clauses: a second, independent execution from the same entry heap
@@ -206,14 +233,12 @@ func (e *Engine) frameObligations(c *Contract, res execResult, h0 Heap) {
 			}
 		}
 	}
-	var keys []string
-	for k := range res.heap {
-		keys = append(keys, k)
-	}
+	keys := append([]string{}, e.compOrder...)
 	sort.Strings(keys)
 	for _, k := range keys {
 		cp := e.comps[k]
-		if res.heap[k] == cp.init || !e.dirty[k] {
+		final := e.heapGet(res.heap, cp)
+		if final == cp.init || !e.dirty[k] {
 			// unchanged, or written only at objects allocated by this execution
 			continue
 		}
@@ -227,7 +252,7 @@ func (e *Engine) frameObligations(c *Contract, res execResult, h0 Heap) {
 			continue
 		}
 		r := e.sc.declare("frame_r", SRef)
-		goal := implies(and(res.reach, app("bvult", r, bvLit(0x80000000, 32))), eq(sel(res.heap[k], r), sel(cp.init, r)))
+		goal := implies(and(res.reach, app("bvult", r, bvLit(0x80000000, 32))), eq(sel(final, r), sel(cp.init, r)))
 		e.oblige(&Obligation{
 			Name:   c.Func + ".frame." + shortKey(k),
 			Kind:   "frame",
